@@ -44,6 +44,12 @@ def gen_cases(rng, n):
                           mask=str(rng.choice(["none", "random", "half"])),
                           # any flux unit: every third round the image is in units where the sky uncertainty is ~1e-8
                           err=float(np.exp(rng.uniform(-3, 1))) * (1e-7 if (k // 3) % 3 == 2 else 1.0), psf_sum=float(rng.choice([1.0, 0.7, 1.6])), seed=int(rng.integers(0, 2 ** 31))))
+    for k, c in enumerate(cases):
+        # a plane tilted along one axis only
+        if k % 5 == 3:
+            c["xsl"], c["ysl"] = 0.0, float(rng.normal(0, 0.5)) or 0.3
+        elif k % 5 == 4:
+            c["xsl"], c["ysl"] = float(rng.normal(0, 0.5)) or 0.3, 0.0
     return cases
 
 
@@ -188,6 +194,10 @@ def evaluate(ctx, cases):
         d2 = float(np.abs(b["diff2"] - exp).max())
         if not d2 <= tol:
             viol.append(v("source-dependence", f"the sky term changed by {d2:.3e} when only source parameters changed"))
+        ds = float(np.abs(b["standalone"] - exp).max())
+        if not ds <= tol:
+            viol.append(v("standalone", f"render_tilted_plane_sky(X, Y, back, x_sl, y_sl) differs from the stated plane by {ds:.3e} (tolerance {tol:.1e}; "
+                                        f"slopes {vb.get('sky_x_sl', 0.0):.4g}, {vb.get('sky_y_sl', 0.0):.4g})"))
         rp = b.get("repeat")
         if rp:
             rt = 2e-6 * max(rp["scale"], 1e-30)
